@@ -14,7 +14,8 @@ Record fwd_obs := mkFO {
   fo_secret : bytes; fo_has_payload : bool; fo_payload_eq : bool;
   fo_resp : option resp; fo_signed : option resp;
   fo_has_bytes : bool; fo_has_sig : bool; fo_sig_ok : bool; fo_bytes_ok : bool;
-  fo_source : option N; fo_addr : option bytes; fo_decoy : option bytes; fo_unknown : bool
+  fo_source : option N; fo_addr : option bytes; fo_decoy : option bytes; fo_unknown : bool;
+  fo_gen : option N                   (* decoy_list_generation of the forwarded payload *)
 }.
 
 Definition fwd_matches (f : fwd) (o : fwd_obs) : bool :=
@@ -28,7 +29,8 @@ Definition fwd_matches (f : fwd) (o : fwd_obs) : bool :=
   (negb (fo_has_bytes o) || (fo_sig_ok o && fo_bytes_ok o)) &&
   oN_eqb (Some (f_source f)) (fo_source o) &&
   obytes_eqb (f_addr f) (fo_addr o) &&
-  negb (is_some (fo_decoy o)) && negb (fo_unknown o).
+  negb (is_some (fo_decoy o)) && negb (fo_unknown o) &&
+  oN_eqb (option_map p_gen (f_payload f)) (fo_gen o).
 
 Definition sreg_obs := (bytes * N * option bytes)%type.
 
@@ -61,11 +63,14 @@ Definition mk_new_reg (req_params : option bytes) (o1 : own_obs) (resp_params : 
               if obytes_eqb p resp_params then pick o2 else if obytes_eqb p req_params then pick o1 else None.
 
 Record obs := mkObs {
-  o_err : N;                          (* 0 ok, 1 no C2S body, 2 process failed, 3 shared secret, 4 other error, 5 panic *)
+  o_err : N;                          (* 0 ok, 1 no C2S body, 2 process failed, 3 shared secret, 4 other error, 5 panic, 6 constructor error *)
   o_resp : option resp;
   o_sent : bool;
   o_fwd : option fwd_obs;
-  o_station : option (option (list sreg_obs))   (* None = station not run *)
+  o_station : option (option (list sreg_obs));  (* None = station not run *)
+  (* front ends: HTTP status / DNS success, the ClientConf generation attached (API) or the
+     outdated flag (DNS), whether the response the client got has any other field *)
+  o_status : N; o_cc : option N; o_resp_extra : bool
 }.
 
 Definition err_code (x : err) : N :=
@@ -73,6 +78,8 @@ Definition err_code (x : err) : N :=
 
 Record case := mkCase {
   k_kind : N;                         (* 0 bidirectional, 1 unidirectional, 2 station only *)
+  k_fe : N;                           (* 0 the processor's entry points, 1 API handlers, 2 DNS processRequest *)
+  k_server_gen : option N; k_body_len : N;
   k_cfg : rcfg; k_req : req; k_client_addr : option bytes; k_method : N; k_env : env;
   k_st : scfg;
   k_obs : obs
@@ -84,23 +91,41 @@ Definition fwd_and_station (k : case) (f : fwd) : bool :=
   match o_fwd o with Some fo => fwd_matches f fo | None => false end &&
   match o_station o with Some so => station_matches (station (k_st k) f) so | None => false end.
 
+Definition chk_fe (k : case) (m : option fe_out) : bool :=
+  let o := k_obs k in
+  match m with
+  | None => o_err o =? 5
+  | Some x =>
+    (o_err o =? 0) && (fe_status x =? o_status o) && oresp_eqb (fe_resp x) (o_resp o) &&
+    oN_eqb (fe_cc x) (o_cc o) && negb (o_resp_extra o) &&
+    match fe_fwd x with
+    | Some f => fwd_and_station k f
+    | None => negb (o_sent o)
+    end
+  end.
+
 Definition chk (k : case) : bool :=
   let o := k_obs k in
-  match k_kind k with
-  | 2 =>
+  if negb (cfg_accepted (k_cfg k)) then o_err o =? 6     (* the real constructor refuses the configuration *)
+  else
+  match k_kind k, k_fe k with
+  | 2, _ =>
     (* an arbitrary (possibly hostile) wrapper is given to the station *)
     let q := k_req k in
     match o_station o with
     | Some so => station_matches (station (k_st k) (mkFwd (q_secret q) (q_payload q) (q_forged_resp q) None (q_source q) (q_addr q))) so
     | None => false
     end
-  | 1 =>
+  | 0, 1 => chk_fe k (api_bd (k_cfg k) (k_server_gen k) (k_body_len k) (k_req k) (k_client_addr k) (k_env k))
+  | _, 1 => chk_fe k (api_uni (k_cfg k) (k_body_len k) (k_req k) (k_client_addr k))
+  | _, 2 => chk_fe k (dns_req (k_cfg k) (match k_server_gen k with Some g => g | None => 0 end) (k_req k) (k_env k))
+  | 1, _ =>
     match register_uni (k_cfg k) (k_req k) (k_client_addr k) (k_method k) with
     | Ok f => (o_err o =? 0) && negb (is_some (o_resp o)) && fwd_and_station k f
     | Err x => (o_err o =? err_code x) && negb (o_sent o)
     | Panic => o_err o =? 5
     end
-  | _ =>
+  | _, _ =>
     match register_bd (k_cfg k) (k_req k) (k_client_addr k) (k_method k) (k_env k) with
     | Ok (r, f) => (o_err o =? 0) && oresp_eqb (Some r) (o_resp o) && fwd_and_station k f
     | Err x => (o_err o =? err_code x) && negb (is_some (o_resp o)) && negb (o_sent o)
